@@ -71,6 +71,8 @@ def translate(text):
   last = tree.body[-1]
   if isinstance(last, ast.Expr):
     tree.body[-1] = ast.copy_location(ast.Return(last.value), last)
+  elif not any(isinstance(n, ast.Return) for n in ast.walk(tree)):
+    return None                               # no value to return: Grist reports such a formula as invalid
   fn = ast.FunctionDef(name="_f", args=ast.arguments(posonlyargs=[], args=[ast.arg("rec"), ast.arg("table")], kwonlyargs=[],
                                                       kw_defaults=[], defaults=[]), body=tree.body, decorator_list=[], type_params=[])
   mod = ast.Module(body=[fn], type_ignores=[])
